@@ -968,8 +968,213 @@ def expand_dict_splats(tree: ast.Module) -> int:
     return n
 
 
+def _split_conditional_receivers(tree: ast.Module) -> int:
+    """`(A if c else B).append(x)`  ->  `if c: A.append(x) else: B.append(x)`  (expression statements only)"""
+    n = 0
+    for parent in ast.walk(tree):
+        for fld in ("body", "orelse", "finalbody"):
+            lst = getattr(parent, fld, None)
+            if not (isinstance(lst, list) and lst and isinstance(lst[0], ast.stmt)):
+                continue
+            for i, st in enumerate(lst):
+                c = st.value if isinstance(st, ast.Expr) else None
+                if isinstance(c, ast.Call) and isinstance(c.func, ast.Attribute) and isinstance(c.func.value, ast.IfExp):
+                    ife = c.func.value
+
+                    def arm(recv, c=c):
+                        cc = copy.deepcopy(c)
+                        cc.func.value = copy.deepcopy(recv)
+                        return ast.Expr(value=cc)
+
+                    new = ast.If(test=ife.test, body=[arm(ife.body)], orelse=[arm(ife.orelse)])
+                    ast.copy_location(new, st)
+                    ast.fix_missing_locations(new)
+                    lst[i] = new
+                    n += 1
+    return n
+
+
+def _is_boolean_expr(e: ast.AST) -> bool:
+    if isinstance(e, ast.Compare):
+        return True
+    if isinstance(e, ast.UnaryOp) and isinstance(e.op, ast.Not):
+        return True
+    if isinstance(e, ast.Constant) and isinstance(e.value, bool):
+        return True
+    if isinstance(e, ast.Call) and isinstance(e.func, ast.Name) and e.func.id in ("bool", "isinstance", "issubclass", "callable", "hasattr", "any", "all"):
+        return True
+    if isinstance(e, ast.BoolOp):
+        return all(_is_boolean_expr(v) for v in e.values)
+    return False
+
+
+def _split_boolean_returns(tree: ast.Module) -> int:
+    """`return A and B` (A boolean-valued)  ->  `if A: return B` / `return False`;   `return A or B`  ->  `if A: return True` /
+    `return B`.  Gives the CFG the same tests whether a predicate is written as guard clauses or as one expression."""
+    n = 0
+    for parent in ast.walk(tree):
+        for fld in ("body", "orelse", "finalbody"):
+            lst = getattr(parent, fld, None)
+            if not (isinstance(lst, list) and lst and isinstance(lst[0], ast.stmt)):
+                continue
+            i = 0
+            while i < len(lst):
+                st = lst[i]
+                v = st.value if isinstance(st, ast.Return) else None
+                if isinstance(v, ast.BoolOp) and len(v.values) >= 2 and all(_is_boolean_expr(x) for x in v.values[:-1]):
+                    first, rest = v.values[0], v.values[1:]
+                    rest_e = rest[0] if len(rest) == 1 else ast.BoolOp(op=v.op, values=rest)
+                    if isinstance(v.op, ast.And):
+                        new = [ast.If(test=first, body=[ast.Return(value=rest_e)], orelse=[]), ast.Return(value=ast.Constant(value=False))]
+                    else:
+                        new = [ast.If(test=first, body=[ast.Return(value=ast.Constant(value=True))], orelse=[]), ast.Return(value=rest_e)]
+                    for x in new:
+                        ast.copy_location(x, st)
+                        ast.fix_missing_locations(x)
+                    lst[i:i + 1] = new
+                    n += 1
+                    continue  # the inner return may split again
+                i += 1
+    return n
+
+
+def _build_conditional_dicts(tree: ast.Module) -> int:
+    """`return {**({'a': x} if c else {}), 'b': y}`  ->  `_sv_dN = {}; if c: _sv_dN['a'] = x; _sv_dN['b'] = y; return _sv_dN`
+    (dict displays whose splats are `LITERAL if cond else {}`; keys are written in display order)."""
+    n = 0
+    cnt = [0]
+    for parent in ast.walk(tree):
+        for fld in ("body", "orelse", "finalbody"):
+            lst = getattr(parent, fld, None)
+            if not (isinstance(lst, list) and lst and isinstance(lst[0], ast.stmt)):
+                continue
+            i = 0
+            while i < len(lst):
+                st = lst[i]
+                i += 1
+                v = getattr(st, "value", None) if isinstance(st, (ast.Return, ast.Assign)) else None
+                if not (isinstance(v, ast.Dict) and any(k is None for k in v.keys)):
+                    continue
+                okd = True
+                for k, val in zip(v.keys, v.values):
+                    if k is None and not (isinstance(val, ast.IfExp) and isinstance(val.body, ast.Dict) and all(kk is not None for kk in val.body.keys)
+                                          and isinstance(val.orelse, ast.Dict) and not val.orelse.keys):
+                        okd = False
+                if not okd:
+                    continue
+                cnt[0] += 1
+                tmp = f"_sv_d{cnt[0]}"
+                pre: List[ast.stmt] = [ast.Assign(targets=[ast.Name(id=tmp, ctx=ast.Store())], value=ast.Dict(keys=[], values=[]), type_comment=None)]
+
+                def put(k_, v_):
+                    return ast.Assign(targets=[ast.Subscript(value=ast.Name(id=tmp, ctx=ast.Load()), slice=k_, ctx=ast.Store())], value=v_, type_comment=None)
+
+                for k, val in zip(v.keys, v.values):
+                    if k is None:
+                        pre.append(ast.If(test=val.test, body=[put(kk, vv) for kk, vv in zip(val.body.keys, val.body.values)], orelse=[]))
+                    else:
+                        pre.append(put(k, val))
+                st.value = ast.Name(id=tmp, ctx=ast.Load())
+                for x in pre:
+                    ast.copy_location(x, st)
+                    ast.fix_missing_locations(x)
+                ast.fix_missing_locations(st)
+                lst[i - 1:i - 1] = pre
+                i += len(pre)
+                n += 1
+    return n
+
+
+def _unroll_table_comprehensions(tree: ast.Module) -> int:
+    """`rows = ((k1, v1, c1), (k2, v2, c2)); return {k: v for k, v, keep in rows if keep}`  ->
+    `_sv_tN = {}; if c1: _sv_tN[k1] = v1; if c2: _sv_tN[k2] = v2; return _sv_tN`   (dict and list comprehensions over a
+    literal table of tuples - given in place or through a local bound once and used only there - with a tuple target)."""
+    n = 0
+    cnt = [0]
+    for fn in ast.walk(tree):
+        if not isinstance(fn, (ast.FunctionDef, ast.AsyncFunctionDef)):
+            continue
+        loads, stores, banned = _name_counts(fn)
+        tables = {}
+        for x in _walk_own(fn):
+            tg = x.targets[0] if isinstance(x, ast.Assign) and len(x.targets) == 1 else (x.target if isinstance(x, ast.AnnAssign) else None)
+            v = getattr(x, "value", None)
+            if isinstance(tg, ast.Name) and isinstance(v, (ast.Tuple, ast.List)) and v.elts and all(isinstance(r, ast.Tuple) for r in v.elts) and stores.get(tg.id, 0) == 1 and loads.get(tg.id, 0) == 1 and tg.id not in banned:
+                tables[tg.id] = (x, v)
+        lists = [fn.body]
+        for x in _walk_own(fn):
+            for fld in ("body", "orelse", "finalbody"):
+                sub = getattr(x, fld, None)
+                if isinstance(sub, list) and sub and isinstance(sub[0], ast.stmt) and not isinstance(x, (ast.FunctionDef, ast.AsyncFunctionDef, ast.ClassDef)):
+                    lists.append(sub)
+            if isinstance(x, ast.Try):
+                lists += [h.body for h in x.handlers]
+        for lst in lists:
+            i = 0
+            while i < len(lst):
+                st = lst[i]
+                i += 1
+                v = getattr(st, "value", None) if isinstance(st, (ast.Return, ast.Assign, ast.AnnAssign)) else None
+                if not (isinstance(v, (ast.DictComp, ast.ListComp)) and len(v.generators) == 1):
+                    continue
+                gen = v.generators[0]
+                if gen.is_async or not (isinstance(gen.target, ast.Tuple) and all(isinstance(t, ast.Name) for t in gen.target.elts)):
+                    continue
+                table, drop = None, None
+                if isinstance(gen.iter, (ast.Tuple, ast.List)) and gen.iter.elts and all(isinstance(r, ast.Tuple) for r in gen.iter.elts):
+                    table = gen.iter
+                elif isinstance(gen.iter, ast.Name) and gen.iter.id in tables:
+                    drop, table = tables[gen.iter.id]
+                if table is None or len(table.elts) > 32 or any(len(r.elts) != len(gen.target.elts) or any(isinstance(e, ast.Starred) for e in r.elts) for r in table.elts):
+                    continue
+                names = [t.id for t in gen.target.elts]
+                cnt[0] += 1
+                tmp = f"_sv_t{cnt[0]}"
+                is_dict = isinstance(v, ast.DictComp)
+                pre: List[ast.stmt] = [ast.Assign(targets=[ast.Name(id=tmp, ctx=ast.Store())], value=ast.Dict(keys=[], values=[]) if is_dict else ast.List(elts=[], ctx=ast.Load()), type_comment=None)]
+                for row in table.elts:
+                    mp = dict(zip(names, row.elts))
+
+                    def sub(e):
+                        return _SubstNames(mp).visit(copy.deepcopy(e))
+
+                    if is_dict:
+                        act: ast.stmt = ast.Assign(targets=[ast.Subscript(value=ast.Name(id=tmp, ctx=ast.Load()), slice=sub(v.key), ctx=ast.Store())], value=sub(v.value), type_comment=None)
+                    else:
+                        act = ast.Expr(value=ast.Call(func=ast.Attribute(value=ast.Name(id=tmp, ctx=ast.Load()), attr="append", ctx=ast.Load()), args=[sub(v.elt)], keywords=[]))
+                    body: List[ast.stmt] = [act]
+                    for cond in reversed(gen.ifs):
+                        body = [ast.If(test=sub(cond), body=body, orelse=[])]
+                    pre += body
+                st.value = ast.Name(id=tmp, ctx=ast.Load())
+                for x in pre:
+                    ast.copy_location(x, st)
+                    ast.fix_missing_locations(x)
+                ast.fix_missing_locations(st)
+                lst[i - 1:i - 1] = pre
+                i += len(pre)
+                if drop is not None:
+                    for l2 in lists:
+                        if drop in l2:
+                            l2.remove(drop)
+                            if not l2:
+                                l2.append(ast.Pass())
+                            if l2 is lst:
+                                i -= 1
+                n += 1
+    return n
+
+
 def desugar(tree: ast.Module) -> int:
     total = expand_dict_splats(tree)
+    total += _unroll_table_comprehensions(tree)
+    total += _build_conditional_dicts(tree)
+    for _ in range(4):
+        k = _split_boolean_returns(tree)
+        total += k
+        if not k:
+            break
+    total += _split_conditional_receivers(tree)
     for _ in range(3):
         k = _match_to_if(tree)
         total += k
